@@ -133,6 +133,9 @@ template <typename F> static void op_ternary(const Case& c, Outcome& o) {
   bool anynan = x != x || y != y || z != z; o.cls(anynan ? 1 : 0); const W u = std::ldexp((W)1, -FT<F>::MANT);
   // clamp(x, lo, hi) = min(max(x, lo), hi) (GLSL definition; undefined if lo > hi -> skipped)
   if (!(y > z)) { F g = glm::clamp(x, y, z); F m = (x < y) ? y : x; F w = (z < m) ? z : m; o.res(FT<F>::bits(g)); o.exp(FT<F>::bits(w)); if (!valeq(g, w)) { o.bad(1, "clamp: not min(max(x,minVal),maxVal)"); return; } }
+  // gtx/common openBounded / closeBounded (vector forms only): min < x < max  /  min <= x <= max, per component
+  { glm::vec<2, F> vx(x, y), vlo(y, x), vhi(z, z); glm::vec<2, bool> ob = glm::openBounded(vx, vlo, vhi), cb = glm::closeBounded(vx, vlo, vhi); glm::vec<1, bool> o1 = glm::openBounded(glm::vec<1, F>(x), glm::vec<1, F>(y), glm::vec<1, F>(z));
+    if (ob.x != (x > y && x < z) || ob.y != (y > x && y < z) || cb.x != (x >= y && x <= z) || cb.y != (y >= x && y <= z) || o1.x != ob.x) { o.res((uint64_t)ob.x | ((uint64_t)ob.y << 1) | ((uint64_t)cb.x << 2) | ((uint64_t)cb.y << 3)); o.bad(20, "openBounded / closeBounded: not (min < x < max) / (min <= x <= max) per component"); return; } }
   // fclamp: NaN only if every operand is NaN
   { F g = glm::fclamp(x, y, z); o.res(FT<F>::vbits(g)); bool all = x != x && y != y && z != z; if (all ? (g == g) : (g != g)) { o.bad(2, "fclamp: NaN iff every operand is NaN"); return; }
     if (!anynan && !(y > z)) { F m = (x < y) ? y : x; F w = (z < m) ? z : m; o.exp(FT<F>::bits(w)); if (!(g == w)) { o.bad(3, "fclamp: not the clamped value"); return; } } }
